@@ -30,7 +30,7 @@ def classify(r, st, bits):
         return "D_NoOperandTable"
     if k == "ins" and mn in ("RET", "RETF", "RETN", "HLT", "NOP") and st["ops"]:
         return "D_IgnoredOperands"
-    if k == "ins" and mn == "MOV" and bits == 16 and any(o["t"] == "m" and o.get("aw", 0) == 0 and not (-32768 <= o.get("d", 0) <= 65535) for o in st["ops"]):
+    if k == "ins" and bits == 16 and any(o["t"] == "m" and o.get("aw", 0) == 0 and not (-32768 <= o.get("d", 0) <= 65535) for o in st["ops"]):
         return "D_AbsTrunc16"
     if k == "ins" and mn in ("DIV", "MUL", "IDIV") :
         return "D_Group3"
@@ -53,7 +53,7 @@ def classify(r, st, bits):
             return "D_Addr16In32"
         if mm.get("aw") == 32 and mm.get("b", -1) == -1 and mm.get("x", -1) != -1:
             return "D_IndexNoBase"
-        if mm.get("aw") == 32 and mm.get("b") == 5 and mm.get("x", -1) != -1 and not mm.get("hd", 1) and mm.get("d", 0) == 0:
+        if mm.get("aw") == 32 and mm.get("b") == 5 and mm.get("x", -1) != -1 and mm.get("d", 0) == 0:
             return "D_EbpIndexNoDisp"
         if mm.get("aw") == 32 and mm.get("x", -1) == 0 and mm.get("b") == 0 and mm.get("sc", 1) == 1:
             return "D_SibZeroDropped"
